@@ -38,12 +38,6 @@ example :
   exact .obj (cs := [([120], .scalar .null), ([121], .scalar (.bool true))])
     (.cons (.scalar _) (.cons (.scalar _) .nil)) (List.Perm.swap _ _ _)
 
--- [audit] the hypothesis `o.ake = true` of `build_perm_dict` / `dict_perm_script` is needed: with
--- `allow_key_edits = False` the built trees of a document and its key-permuted copy differ (insertion order kept)
-example : build { ake := false } (.obj [([97], .scalar .null), ([98], .scalar .null)])
-    ≠ build { ake := false } (.obj [([98], .scalar .null), ([97], .scalar .null)]) := by
-  simp [build, build.buildKV]
-
 /-- (2) for EVERY option set (also `allow_key_edits = False`, where `FixedKeyDictNode` keeps insertion order) a
     document and its key-permuted copy build trees that compare equal -/
 theorem perm_equal (o : Opts) (a b : Doc) (h : Doc.PermEq a b) : Tree.eq (build o a) (build o b) = true :=
